@@ -10,6 +10,7 @@ import (
 	"path/filepath"
 	"time"
 
+	"github.com/sarchlab/akita/v5/messaging"
 	"github.com/sarchlab/akita/v5/timing"
 )
 
@@ -108,11 +109,23 @@ func runRole(req RoleReq) (res RoleRes) {
 	switch req.Role {
 	case "ref":
 		tr := AttachEventTrace(a.Engine(), req.KeepTrace)
+		var mh *MsgHash
+		if pa, ok := a.(interface{ Ports() []messaging.Port }); ok {
+			mh = AttachMsgHash(pa.Ports(), a.Engine().CurrentTime)
+		}
 		a.Start()
 		if err := a.Engine().RunUntil(limit); err != nil {
 			return RoleRes{Err: err.Error()}
 		}
-		return fill(a, tr, req.Dir)
+		res = fill(a, tr, req.Dir)
+		if mh != nil {
+			if res.Extra == nil {
+				res.Extra = map[string]string{}
+			}
+			res.Extra["msg_hash"] = mh.Hash()
+			res.Extra["msg_count"] = fmt.Sprint(mh.N)
+		}
+		return res
 	case "saves":
 		a.Start()
 		for i, t := range req.Cuts {
